@@ -8,6 +8,13 @@ and the documented formulas transcribed in Spec/Muscle.lean.
 
 * `ctrl_clamped_in_range`, `ctrlStage_entry`: unless mjDSBL_CLAMPCTRL, every limited control used by the force
   computation lies in its ctrlrange, or all controls were replaced by 0 because one of them was bad.
+* `ctrlSources_get`, `ctrlStageDelayed_entry`, `delayed_ctrl_in_range`: with delays the local control of actuator i is
+  the clamp of ITS SOURCE (the history-buffer read `mj_readCtrl` when delay ≠ 0, `d->ctrl` otherwise) — so a limited
+  control lies in ctrlrange WHATEVER the history buffer holds (raw, unclamped user controls are stored there), or all
+  controls were zeroed; `ctrlSource_nodelay`, `ctrlStageDelayed_nodelay`: without delays this is the plain `ctrlStage`;
+  `historyRead_zoh_mem`: a zero-order-hold read returns one of the stored samples.
+* `actearly_input_in_actrange`: with actearly the activation fed into the force law is `mj_nextActivation(act, act_dot)`,
+  inside actrange for a limited activation.
 * `act_in_actrange`: `mj_nextActivation` (C05's model) keeps a limited activation in actrange (not for DC motors,
   which the code exempts).
 * `force_in_forcerange`, `jointforce_in_range`, `tendon_total_in_range`: the three force limits, at their stage.
@@ -95,6 +102,131 @@ theorem ctrlStage_entry (cd : Bool) (cs : List (Ctrl ℝ)) (i : Nat) (h : i < cs
 example : (0 : ℝ) ≤ clampEntry true (-3 : ℝ) 0 2 ∧ clampEntry true (-3 : ℝ) 0 2 ≤ 2 :=
   ctrl_clamped_in_range _ _ _ (by norm_num)
 
+/-! ### delayed controls -/
+
+/-- an actuator without delay reads `d->ctrl` -/
+theorem ctrlSource_nodelay (c : CtrlIn ℝ) (time : ℝ) (h : c.delay = 0) : ctrlSource c time = some c.raw := by
+  simp [ctrlSource, h, real_zero]
+
+/-- a delayed actuator with a buffer reads the buffer at `time - delay` -/
+theorem ctrlSource_delayed (c : CtrlIn ℝ) (time : ℝ) (hb : History ℝ) (h : c.delay ≠ 0) (hh : c.hist = some hb) :
+    ctrlSource c time = historyRead hb (time - c.delay) c.interp := by
+  simp [ctrlSource, readCtrl, h, hh, real_zero]
+
+/-- the copy loop: one source per control, in order -/
+theorem ctrlSources_get (time : ℝ) (cs : List (CtrlIn ℝ)) (vs : List ℝ) (h : ctrlSources time cs = some vs) :
+    vs.length = cs.length ∧ ∀ (i : Nat) (hi : i < cs.length), ctrlSource cs[i] time = vs[i]? := by
+  induction cs generalizing vs with
+  | nil => simp [ctrlSources] at h; subst h; simp
+  | cons c cs ih =>
+    simp only [ctrlSources] at h
+    cases hc : ctrlSource c time with
+    | none => simp [hc] at h
+    | some v =>
+      cases hr : ctrlSources time cs with
+      | none => simp [hc, hr] at h
+      | some vr =>
+        simp [hc, hr] at h
+        subst h
+        obtain ⟨hl, hg⟩ := ih vr hr
+        refine ⟨by simp [hl], ?_⟩
+        intro i hi
+        cases i with
+        | zero => simp [hc]
+        | succ k =>
+          have hk : k < cs.length := by simpa using hi
+          simpa using hg k hk
+
+/-- every entry of the local control vector with delays: 0 if some (clamped) control is bad, otherwise the clamp of
+    the SOURCE of that control (raw source when clamping is disabled) -/
+theorem ctrlStageDelayed_entry (cd : Bool) (time : ℝ) (cs : List (CtrlIn ℝ)) (us : List ℝ)
+    (h : ctrlStageDelayed cd time cs = some us) (i : Nat) (hi : i < cs.length) :
+    ∃ (src : ℝ) (allBad : Bool), ctrlSource cs[i] time = some src ∧
+      us[i]? = some (if allBad then 0 else (if cd then src else clampEntry cs[i].limited src cs[i].lo cs[i].hi)) := by
+  unfold ctrlStageDelayed at h
+  cases hs : ctrlSources time cs with
+  | none => simp [hs] at h
+  | some vs =>
+    simp only [hs, Option.some.injEq] at h
+    obtain ⟨hl, hg⟩ := ctrlSources_get time cs vs hs
+    have hiv : i < vs.length := by omega
+    have hlen : i < ((cs.zip vs).map (fun cv => cv.1.withValue cv.2)).length := by simp [hl, hi]
+    have he := ctrlStage_entry cd ((cs.zip vs).map (fun cv => cv.1.withValue cv.2)) i hlen
+    rw [h] at he
+    generalize (List.any _ _) = bad at he
+    refine ⟨vs[i], bad, ?_, ?_⟩
+    · rw [hg i hi]; simp [hiv]
+    · rw [he]; simp [CtrlIn.withValue]
+
+/-- THE clamping clause of the property for delayed controls: clamping enabled, control limited, ctrlrange
+    non-empty — the control the forces use lies in ctrlrange for EVERY content of the history buffer (which stores the
+    raw user controls), or it is 0 because the controls were zeroed -/
+theorem delayed_ctrl_in_range (time : ℝ) (cs : List (CtrlIn ℝ)) (us : List ℝ)
+    (h : ctrlStageDelayed false time cs = some us) (i : Nat) (hi : i < cs.length)
+    (hl : cs[i].limited = true) (hr : cs[i].lo ≤ cs[i].hi) :
+    ∃ u, us[i]? = some u ∧ (u = 0 ∨ (cs[i].lo ≤ u ∧ u ≤ cs[i].hi)) := by
+  obtain ⟨src, allBad, _, hu⟩ := ctrlStageDelayed_entry false time cs us h i hi
+  refine ⟨_, hu, ?_⟩
+  cases allBad with
+  | true => left; simp
+  | false =>
+    right
+    simp only [Bool.false_eq_true, if_false, hl]
+    exact ctrl_clamped_in_range src _ _ hr
+
+/-- without any delay the delayed stage is the plain control stage on `d->ctrl` -/
+theorem ctrlStageDelayed_nodelay (cd : Bool) (time : ℝ) (cs : List (CtrlIn ℝ)) (h : ∀ c ∈ cs, c.delay = 0) :
+    ctrlStageDelayed cd time cs = some (ctrlStage cd (cs.map (fun c => c.withValue c.raw))) := by
+  have hs : ctrlSources time cs = some (cs.map (·.raw)) := by
+    induction cs with
+    | nil => simp [ctrlSources]
+    | cons c cs ih =>
+      have h1 := ctrlSource_nodelay c time (h c (by simp))
+      have h2 := ih (fun c' hc' => h c' (by simp [hc']))
+      simp [ctrlSources, h1, h2]
+  have hz : ∀ l : List (CtrlIn ℝ), (l.zip (l.map (·.raw))).map (fun cv => cv.1.withValue cv.2) =
+      l.map (fun c => c.withValue c.raw) := by
+    intro l
+    induction l with
+    | nil => simp
+    | cons c l ih => simp [ih]
+  simp only [ctrlStageDelayed, hs, hz]
+
+/-- a zero-order-hold read returns one of the stored samples -/
+theorem historyRead_zoh_mem (hb : History ℝ) (t v : ℝ) (h : historyRead hb t 0 = some v) : v ∈ hb.values := by
+  simp only [historyRead] at h
+  split_ifs at h with h0
+  split at h
+  · split_ifs at h
+    · exact List.mem_of_getElem? h
+    · exact List.mem_of_getElem? h
+    · split at h
+      · cases h
+      · split at h
+        · cases h
+        · split_ifs at h
+          · exact List.mem_of_getElem? h
+          · simp only [interpolate] at h
+            split_ifs at h
+            split at h
+            · rename_i hv _
+              cases h
+              exact List.mem_of_getElem? hv
+            · cases h
+  · cases h
+
+example : historyRead (⟨3, [0, 2, 4, 6], [5, -3, 2, 2]⟩ : History ℝ) 3 0 = some (-3) := by
+  norm_num [historyRead, physIdx, findIndex, bsearch, interpolate, real_minval, abs_lt]
+
+example : historyRead (⟨3, [0, 2, 4, 6], [5, -3, 2, 2]⟩ : History ℝ) 3 1 = some (-0.5) := by
+  norm_num [historyRead, physIdx, findIndex, bsearch, interpolate, real_minval, abs_lt]
+
+example : ∃ us, ctrlStageDelayed false (8 : ℝ)
+    [⟨7, true, -1, 1, 5, 0, some ⟨3, [0, 2, 4, 6], [5, -3, 2, 2]⟩⟩] = some us :=
+  ⟨_, by
+    norm_num [ctrlStageDelayed, ctrlSources, ctrlSource, readCtrl, historyRead, physIdx, findIndex, bsearch, interpolate,
+      real_minval, real_zero, abs_lt]; rfl⟩
+
 /-! ### activations -/
 
 /-- mj_nextActivation clamps a limited activation to actrange (every dyntype except the DC motor) -/
@@ -104,6 +236,17 @@ theorem act_in_actrange (p : Integrate.ActSlot ℝ) (h act actDot : ℝ) (hl : p
   simp only [Integrate.nextActivation]
   rw [if_pos ⟨hd, hl⟩]
   exact clip_mem _ _ _ hr
+
+/-- actearly: the activation fed into the force law is the NEXT activation, inside actrange when limited -/
+theorem actearly_input_in_actrange (p : Integrate.ActSlot ℝ) (h act actDot : ℝ) (hl : p.actlimited = true)
+    (hd : p.dyntype ≠ RK4.mjDYN_DCMOTOR) (hr : p.lo ≤ p.hi) :
+    p.lo ≤ forceInput true p h act actDot ∧ forceInput true p h act actDot ≤ p.hi := by
+  simp only [forceInput, if_true]
+  exact act_in_actrange p h act actDot hl hd hr
+
+/-- without actearly it is the current activation -/
+theorem forceInput_late (p : Integrate.ActSlot ℝ) (h act actDot : ℝ) : forceInput false p h act actDot = act := by
+  simp [forceInput]
 
 /-- documented activation derivatives -/
 theorem actdot_integrator (d0 d1 d2 u w : ℝ) : actDot .integrator d0 d1 d2 u w = u := rfl
